@@ -49,6 +49,15 @@ var toFns = []toFn{
 	}},
 }
 
+func c08Recover(f func() string) (out string) {
+	defer func() {
+		if r := recover(); r != nil {
+			out = fmt.Sprint("panic: ", r)
+		}
+	}()
+	return f()
+}
+
 const c08Sentinel = "urn:sentinel:written-in-callback"
 
 type c08OnFn struct {
@@ -273,6 +282,39 @@ func runC08(seed int64, n int, tier string, outDir string) (*Report, error) {
 						Expected: "a write through the view handed to the callback is seen by the original", Observed: "original unchanged"})
 				}
 			}()
+		}
+	}
+	// what the library computes through a view must depend on the viewed value only: the one conversion that hands out a
+	// view larger than its source (open finding C08/widening-page) is exercised with the source alone in its allocation
+	// and as an element of a slice whose next element starts right behind it - every answer must be the same
+	{
+		mkPage := func(id ap.ID) ap.CollectionPage {
+			return ap.CollectionPage{ID: id, Type: ap.OrderedCollectionPageType, PartOf: ap.IRI("https://example.com/outbox"), Items: ap.ItemCollection{ap.IRI("https://example.com/activities/1")}}
+		}
+		ordered := &ap.OrderedCollectionPage{ID: "https://example.com/outbox?page=1", Type: ap.OrderedCollectionPageType, PartOf: ap.IRI("https://example.com/outbox"),
+			OrderedItems: ap.ItemCollection{ap.IRI("https://example.com/activities/1")}}
+		alone := new(ap.CollectionPage)
+		*alone = mkPage("https://example.com/outbox?page=1")
+		pages := []ap.CollectionPage{mkPage("https://example.com/outbox?page=1"), mkPage("https://example.com/outbox?page=2"), mkPage("https://example.com/outbox?page=3")}
+		for name, f := range map[string]func(p *ap.CollectionPage) string{
+			"OrderedCollectionPage.Equals(view of *CollectionPage)": func(p *ap.CollectionPage) string { return fmt.Sprint(ordered.Equals(p)) },
+			"ItemsEqual(*OrderedCollectionPage, *CollectionPage)": func(p *ap.CollectionPage) string {
+				return fmt.Sprint(ap.ItemsEqual(ordered, p), ap.ItemsEqual(p, ordered))
+			},
+			"OrderedCollection.Equals / Contains / Count through the page": func(p *ap.CollectionPage) string {
+				oc := &ap.OrderedCollection{ID: "https://example.com/outbox?page=1", Type: ap.OrderedCollectionPageType, OrderedItems: ap.ItemCollection{ap.IRI("https://example.com/activities/1")}}
+				return fmt.Sprint(oc.Equals(p), p.Contains(ap.IRI("https://example.com/activities/1")), p.Count())
+			},
+		} {
+			rep.Evaluations++
+			rep.Count("view-independent-of-neighbours")
+			a := c08Recover(func() string { return f(alone) })
+			for i := range pages[:2] {
+				if b := c08Recover(func() string { return f(&pages[i]) }); i == 0 && a != b {
+					rep.Violate(Violation{Op: name, Input: "the same CollectionPage alone in its allocation / followed by a sibling in one slice",
+						Expected: "the same answer (" + a + "): what is computed through a view depends on the viewed value only", Observed: b})
+				}
+			}
 		}
 	}
 	// the same matrix under the runtime's pointer checker
